@@ -573,7 +573,7 @@ def tie_corpus_calls():
         return []
     with open(p) as f:
         d = json.load(f)
-    return [call('make_qr', e['content'], version=e['version'], error=e['error'], boost_error=False) for e in d['entries']]
+    return [call('make_qr' if isinstance(e['version'], int) else 'make', e['content'], version=e['version'], error=e['error'], boost_error=False) for e in d['entries']]
 
 
 def run_c06(rep, tier):
